@@ -307,6 +307,44 @@ def nat_sort(h):
                 [r['i'] for r in got[1][0]] if got[0] == 'ok' and got[1] else got[:2])
 
 
+def nat_sort_several_tables(h):
+    """bounded: one sort_rows step applied to several tables -- two selected resources of one flow, and the same step object in two
+    flows -- whose key field holds text in one table and numbers in the other: each table is sorted by its own values"""
+    import decimal
+    from dataflows import Flow, sort_rows
+    text = [{'v': s, 'i': i} for i, s in enumerate(['pear', 'apple', 'fig', 'apple', 'kiwi'])]
+    nums = [{'v': x, 'i': i} for i, x in enumerate([10, 9, -1, -20, 2.5, 1000000, decimal.Decimal('9.5'), 9])]
+    late = [{'v': None, 'i': 0}] + [{'v': x, 'i': i + 1} for i, x in enumerate([10, 9, 100, -5])]     # first value is not a number
+
+    def ids(rows):
+        return [r['i'] for r in rows]
+
+    def ref(rows, reverse):
+        out = sorted([r for r in rows], key=lambda r: ((r['v'] is not None), r['v'] if r['v'] is not None else 0, r['i'])) \
+            if not isinstance(rows[1]['v'], str) else sorted(rows, key=lambda r: (r['v'], r['i']))
+        return list(reversed(out)) if reverse else out
+    for key in ('{v}', ['v']):
+        for reverse in (False, True):
+            for first, second in ((text, nums), (nums, text)):
+                got = h.run(lambda: Flow([dict(r) for r in first], [dict(r) for r in second],
+                                         sort_rows(key, reverse=reverse)).results(on_error=None)[0])
+                ok = got[0] == 'ok' and [ids(x) for x in got[1]] == [ids(ref(first, reverse)), ids(ref(second, reverse))]
+                h.check(ok, P + 'sort_rows.py::KeyCalc', ('two resources in one flow', key, reverse, 'text first' if first is text else 'numbers first'),
+                        [ids(ref(first, reverse)), ids(ref(second, reverse))], [ids(x) for x in got[1]] if got[0] == 'ok' else got[:2])
+                step = sort_rows(key, reverse=reverse)
+                a = h.run(lambda: Flow([dict(r) for r in first], step).results(on_error=None)[0][0])
+                b = h.run(lambda: Flow([dict(r) for r in second], step).results(on_error=None)[0][0])
+                ok = a[0] == 'ok' and b[0] == 'ok' and ids(a[1]) == ids(ref(first, reverse)) and ids(b[1]) == ids(ref(second, reverse))
+                h.check(ok, P + 'sort_rows.py::KeyCalc', ('one step object in two flows', key, reverse), [ids(ref(first, reverse)), ids(ref(second, reverse))],
+                        [ids(a[1]) if a[0] == 'ok' else a[:2], ids(b[1]) if b[0] == 'ok' else b[:2]])
+            # numbers after a leading null are still compared as numbers among themselves
+            got = h.run(lambda: Flow([dict(r) for r in late], sort_rows(key, reverse=reverse)).results(on_error=None)[0][0])
+            nn = [r['i'] for r in (got[1] if got[0] == 'ok' else []) if r['v'] is not None]
+            want = ids(sorted(late[1:], key=lambda r: (r['v'], r['i'])))
+            h.check(got[0] == 'ok' and nn == (list(reversed(want)) if reverse else want), P + 'sort_rows.py::KeyCalc',
+                    ('numbers after a leading null', key, reverse), want, nn if got[0] == 'ok' else got[:2])
+
+
 def nat_sort_findings(h):
     from dataflows import Flow, sort_rows
 
@@ -326,7 +364,7 @@ def nat_sort_findings(h):
 
 
 ITEMS = [
-    Item('KeyCalc', sym_keycalc, [('differential', nat_sort)], P + 'sort_rows.py::KeyCalc.__calculator.func'),
+    Item('KeyCalc', sym_keycalc, [('differential', nat_sort), ('several-tables', nat_sort_several_tables)], P + 'sort_rows.py::KeyCalc.__calculator.func'),
     Item('_sorter', sym_sorter, [], P + 'sort_rows.py::_sorter'),
     Item('string-lemmas', sym_string_lemmas, [('findings', nat_sort_findings)], P + 'sort_rows.py::_sorter.process'),
 ]
